@@ -122,7 +122,7 @@ func (e *Exec) callFunc(s *State, f *Frame, in ssa.Value, fn *ssa.Function, args
 	// a nested invocation of the function under proof may be given its own (assumed) contract: ghost state that
 	// describes "the message this invocation walks" is per invocation, which the single ghost global cannot express
 	if fn == e.fn && s.pure == 0 {
-		if ext := e.w.externs["recursive:"+full]; ext != nil {
+		if ext := e.w.externFor(e.fn, "recursive:"+full); ext != nil {
 			e.applyContract(s, f, ext, fn.Signature, args, pos, key, setRes, resType, "recursive:"+full)
 			return
 		}
@@ -139,7 +139,7 @@ func (e *Exec) callFunc(s *State, f *Frame, in ssa.Value, fn *ssa.Function, args
 			return
 		}
 	}
-	if ext := e.w.externs[full]; ext != nil {
+	if ext := e.w.externFor(e.fn, full); ext != nil {
 		e.applyContract(s, f, ext, fn.Signature, args, pos, key, setRes, resType, full)
 		return
 	}
@@ -347,7 +347,7 @@ func (e *Exec) callExternOrHavoc(s *State, f *Frame, key string, sig *types.Sign
 		short = key[i+1:]
 	}
 	e.atCallAsserts(s, f, key, short, args, pos, ikey)
-	if ext := e.w.externs[key]; ext != nil {
+	if ext := e.w.externFor(e.fn, key); ext != nil {
 		e.applyContract(s, f, ext, sig, args, pos, ikey, setRes, resType, key)
 		return
 	}
